@@ -459,14 +459,27 @@ inductive AddErr where
   | inheritSlash           -- `inherit_slash` with a non-empty pattern
 deriving Repr, DecidableEq
 
+/-- the keyword arguments of `add_route` that are route predicates of their own (routes.py 475-486 and the
+`**predicates` registered by `add_default_route_predicates`) -/
+inductive BuiltinKind where
+  | xhr | requestMethod | pathInfo | requestParam | header | accept | isAuthenticated | effectivePrincipals | traverse
+deriving Repr, DecidableEq
+
 structure RouteArgs where
   name : Text
   pattern : Option Text
   path : Option Text             -- the old alias, used when `pattern` is None
   inheritSlash : Bool
   static : Bool
-  preds : List Pred
+  preds : List Pred              -- custom / registered predicates
+  /-- the built-in predicate keywords as passed: `none` = left at (or passed as) `None`; `some p` = a value was given —
+  *any* value, also a falsy one such as `xhr=False`, `request_method=()`, `header=''` — and `p` is what the predicate
+  made from it answers -/
+  builtins : List (BuiltinKind × Option Pred) := []
 deriving Repr, DecidableEq
+
+/-- the predicates the predicate list makes of the built-in keywords: one for every keyword whose value is not `None` -/
+def builtinPreds (bs : List (BuiltinKind × Option Pred)) : List Pred := bs.filterMap (·.2)
 
 /-- what `add_route` (called where `pfx` is in force) asks `mapper.connect` to do: (pattern, predicates, static) -/
 def addRoute (pfx : Option Text) (a : RouteArgs) : Except AddErr (Text × List Pred × Bool) :=
@@ -474,7 +487,10 @@ def addRoute (pfx : Option Text) (a : RouteArgs) : Except AddErr (Text × List P
   | none => .error .patternNone
   | some pat =>
     if a.inheritSlash && pat != [] then .error .inheritSlash
-    else .ok (routePattern pfx pat a.inheritSlash, a.preds, a.static)
+    else .ok (routePattern pfx pat a.inheritSlash, builtinPreds a.builtins ++ a.preds, a.static)
+
+/-- `XHRPredicate(val)`: `bool(request.is_xhr) is bool(val)` -/
+def xhrHolds (val : Bool) (isXhr : Bool) : Bool := isXhr == val
 
 /-- `RequestMethodPredicate(val)(…, request)`: `GET` implies `HEAD` -/
 def requestMethodHolds (val : List Text) (method : Text) : Bool :=
